@@ -2,10 +2,51 @@
 from .core import chain_check
 
 
+def _structural(chk):
+    """containers: all four categories approved, a later snapshot in the same test, two identical sessions"""
+    from . import assign
+    from .. import assign_replay, pool, tlc
+    from ..checklib import MachineryError
+    sizes = assign.SIZES[chk.tier]
+    for shape in ("dict", "seq", "call"):
+        ts_mc, ts, st, keep = sizes[shape]
+        res = tlc.run_tlc("MC_Assign", "Assign_%s.cfg" % shape, workers=16, timeout=3000,
+                          extra_files={"run.cfg": assign._cfg(shape, ["C08"], {"Mode": "mc", "TStride": ts_mc * 2, "Offset": chk.seed % ts_mc})})
+        chk.add_tlc(res, "mc Assign_%s (C08)" % shape)
+        if not res.ok:
+            chk.spec_violation(res, "mc Assign_" + shape)
+        tlc.cleanup(res)
+        res = tlc.run_tlc("MC_Assign", "Assign_%s.cfg" % shape, workers=16, timeout=3000,
+                          extra_files={"run.cfg": assign._cfg(shape, ["Emit"], {"Mode": "emit", "TStride": ts * 2, "Stride": st, "Offset": chk.seed % 7})})
+        chk.add_tlc(res, "emit Assign_%s" % shape)
+        try:
+            cases = [c for c in assign_replay.load_cases(res.out_dir, seed=chk.seed, keep_every=1) if c["A"] == ["fix", "update"]]
+        finally:
+            tlc.cleanup(res)
+        cases = cases[:: 2 if chk.quick else 1]
+        by_id = {c["id"]: c for c in cases}
+        errors = 0
+        for out in pool.parallel_map(assign_replay._worker_tail, [(c, chk.seed) for c in pool.chunks(cases, 30)]):
+            for r in out:
+                if "error" in r:
+                    errors += 1
+                    print("driver error:", r["error"])
+                    continue
+                chk.count(1, shape + r["id"])
+                chk.validated(1)
+                for m in r["mism"]:
+                    chk.mismatch(m["clause"], {"clause": m["clause"], "shape": shape},
+                                 {"kind": "assign-tail", "case": by_id[r["id"]], "seed": chk.seed, "mismatch": m,
+                                  "module": r["text"], "after_run1": r["new"]}, props=m["props"])
+        if errors:
+            raise MachineryError("%d replay jobs crashed" % errors)
+
+
 def run():
     chk = chain_check("C08", "chain8")
     if isinstance(chk, int):
         return chk
+    _structural(chk)
     chk.assumptions += ["deterministic tests; leaf values from the core pools (representation fixed points of richer "
                         "values are exercised by C01/C12)"]
     return chk.finish(
